@@ -60,14 +60,26 @@ def gen_hist_case(rng, max_n=6, max_ops=7):
                 execs.append(len(ops))
             ops.append(op)
         elif r < 0.9:
-            ops.append(dict(kind="fail", args=args, node=rng.randrange(n), via=rng.choice(["call", "exec"]), again=True))
+            via = rng.choice(["call", "exec", "exec", "postproc"])
+            if via == "postproc" and not args:
+                via = "exec"
+            # the run repeated on the same executor object uses OTHER arguments: a stale result is then visible
+            ops.append(dict(kind="fail", args=args, node=rng.randrange(n), via=via, again=True, again_args=[a + 1 for a in args]))
         else:
             ops.append(dict(kind="deepcopy"))
     case["ops"] = ops
     case["final_args"] = [rng.randrange(1000) for _ in range(rng.randint(sum(1 for p in case["params"] if p["default"] is None), nparams))]
     case["maxc"] = rng.randint(1, 3)
     case["none_ret"] = [i for i in range(n) if rng.random() < 0.15]
+    case["is_async"] = rng.random() < 0.3
     return case
+
+
+class Poison(int):
+    """an argument value that cannot be pickled: makes the caching step after a successful run fail"""
+
+    def __reduce_ex__(self, protocol):
+        raise pickle.PicklingError("this value cannot be pickled")
 
 
 def build(case):
@@ -101,7 +113,7 @@ def build(case):
     desc.__name__ = "hdesc"
     desc.__signature__ = inspect.Signature([inspect.Parameter("p%d" % j, inspect.Parameter.POSITIONAL_OR_KEYWORD,
                                                                default=inspect.Parameter.empty if p["default"] is None else p["default"]) for j, p in enumerate(case["params"])])
-    return tawazi.dag(desc, max_concurrency=case.get("maxc", 1))
+    return tawazi.dag(desc, max_concurrency=case.get("maxc", 1), is_async=bool(case.get("is_async")))
 
 
 def names(l):
@@ -110,7 +122,7 @@ def names(l):
 
 def run_op(d, thunk, fails=()):
     ctl = tz.Ctl(free_run=True, fails=set(fails))
-    st = tz.run_controlled(thunk, ctl)
+    st = tz.run_controlled(thunk, ctl, is_async=type(d).__name__ == "AsyncDAG")
     executed = sorted(e[1] for e in ctl.trace if e[0] == "XENTER")
     counts = collections.Counter(e[1] for e in ctl.trace if e[0] == "XENTER")
     return st, executed, counts, ctl
@@ -147,16 +159,23 @@ def run_history(case, tmpdir):
                 if op["via"] == "call":
                     st, ex, cnt, ctl = run_op(cur, lambda: cur(*op["args"]), fails)
                 else:
+                    post = op["via"] == "postproc"
                     try:
-                        exo = cur.executor()
+                        exo = cur.executor(cache_in=os.path.join(tmpdir, "p%d.pkl" % oi)) if post else cur.executor()
                     except BaseException as e:  # noqa: BLE001
                         o.update(status="ctor-raise", error="%s: %s" % (type(e).__name__, e), executed=[])
                         obs.append(o)
                         continue
-                    st, ex, cnt, ctl = run_op(cur, lambda: exo(*op["args"]), fails)
+                    if post:
+                        # every node succeeds; writing the cache file after the run fails
+                        pargs = [Poison(op["args"][0])] + list(op["args"][1:])
+                        st, ex, cnt, ctl = run_op(cur, lambda: exo(*pargs))
+                    else:
+                        st, ex, cnt, ctl = run_op(cur, lambda: exo(*op["args"]), fails)
                     if st[0] == "raise":
                         # run the same executor again, now without the failure: refused, or a complete fresh run
-                        st2, ex2, cnt2, _ = run_op(cur, lambda: exo(*op["args"]))
+                        aargs = op.get("again_args", op["args"])
+                        st2, ex2, cnt2, _ = run_op(cur, lambda: exo(*aargs))
                         o["again"] = dict(status=st2[0], executed=ex2, value=st2[1] if st2[0] == "ok" else "%s" % type(st2[1]).__name__)
             else:
                 kw = dict(target_nodes=names(op["target"]), exclude_nodes=names(op["exclude"]), root_nodes=names(op["root"]))
@@ -248,7 +267,8 @@ def model_term(case, d, obs):
             if op["via"] == "call":
                 ops.append("OCall %d false %s" % (len(op["args"]), ok))
             else:
-                ops.append("OExec None None None false %d [] %s" % (len(op["args"]), ok))
+                # a run whose nodes all succeed and whose caching step fails has run the scheduler to the end
+                ops.append("OExec None None None false %d [] %s" % (len(op["args"]), "true" if (op["via"] == "postproc" and o["status"] == "raise" and "Pickl" in str(o.get("error"))) else ok))
                 if o.get("again") and o["again"]["status"] == "ok":
                     index.append(oi)
                     ops.append("OExec None None None false %d [] true" % len(op["args"]))
@@ -343,7 +363,7 @@ def run(pid, tier, seed, res, only=None):
                 if ag["status"] == "ok":
                     fresh = build(case)
                     # bring the fresh instance to the same setup state is not needed: values do not depend on it
-                    st_f, ex_f, _, _ = run_op(fresh, lambda: fresh.executor()(*o["op"]["args"]))
+                    st_f, ex_f, _, _ = run_op(fresh, lambda: fresh.executor()(*o["op"].get("again_args", o["op"]["args"])))
                     if st_f[0] != "ok" or st_f[1] != ag["value"]:
                         res.hit("C15", "monitor", "executor run again after a failed run returned %r computed from a partially consumed graph (a fresh executor returns %r); executed only %s" % (ag["value"], st_f[1], ag["executed"]),
                                 dict(base, kind="monitor", op_index=oi))
